@@ -279,6 +279,7 @@ def finish(prop, tier, seed, results, task_secs, t_start):
         distinct_nontrivial=len({r['name'] for r in results if r['strength'] != 'cover'}),
         rule='one evaluation = one named obligation (path x case) sent to an SMT back end or decided by execution; distinct = distinct obligation names',
         samples=samples,
+        slowest=[(r['name'], r['secs'], r['backend']) for r in sorted(results, key=lambda r: -r['secs'])[:6]],
         explanation=info.get('explanation', ''),
         violations=vio_records,
     )
